@@ -90,14 +90,16 @@ def stepNS (st : NS) (op impl : String) : NS × StepOut :=
     let ds := dirs.toList.map (· == 'a')
     let parseIdx (s : String) : Option (List Nat) :=
       if s == "-" then some [] else (splitOnChar s ',').mapM (fun x => (x.drop 1).toString.toNat?)
-    let orc := match impl.splitOn "|" with
+    let (orc, dirOk) := match impl.splitOn "|" with
       | [ka, kb, ra, rb] =>
         match parseIdx ka, parseIdx kb, parseIdx ra, parseIdx rb with
         | some ka, some kb, some ra, some rb =>
-          if e2eOk (nameOrd nameB nameA) ds ka kb ra rb then [] else ["e2e-not-one-same-link"]
-        | _, _, _, _ => ["unparsable"]
-      | _ => ["unparsable"]
-    (st, { model := impl, oracle := orc, nontrivial := decide (ds.length > 1) })
+          (if e2eOk ds.length ka kb ra rb then [] else ["e2e-not-one-same-link"],
+           e2eDirectionAsModel (nameOrd nameB nameA) ds ka)
+        | _, _, _, _ => (["unparsable"], true)
+      | _ => (["unparsable"], true)
+    (st, { model := if dirOk then impl else "model: survivor must be a dial of the node whose name sorts last",
+           oracle := orc, nontrivial := decide (ds.length > 1) })
   | ["ns", this] => ({ thisName := this, sessions := [] }, { model := "ok" })
   | ["open", srv, pid] =>
     match parseBool? srv, pid.toNat? with
